@@ -4107,14 +4107,16 @@ class UDFFileEntry:
 
         return new_num_extents - old_num_extents
 
-    def remove_file_ident_desc_by_name(self, name, logical_block_size):
-        # type: (bytes, int) -> int
+    def remove_file_ident_desc_by_name(self, name, logical_block_size, encoding=None):
+        # type: (bytes, int, Optional[str]) -> int
         """
         Remove a UDF File Identifier Descriptor from this UDF File Entry.
 
         Parameters:
          name - The name of the UDF File Identifier Descriptor to remove.
          logical_block_size - The logical block size to use.
+         encoding - The encoding that name is in; the same bytes can spell
+                    one name in Latin-1 and a different one in UCS-2.
         Returns:
          The number of extents removed due to removing this File Identifier Descriptor.
         """
@@ -4128,7 +4130,7 @@ class UDFFileEntry:
         # If flags bit 3 is set, the entries are sorted.
         desc_index = len(self.fi_descs)
         for index, fi_desc in enumerate(self.fi_descs):
-            if fi_desc.fi == name:
+            if fi_desc.fi == name and (encoding is None or fi_desc.encoding == encoding):
                 desc_index = index
                 break
         if desc_index == len(self.fi_descs) or self.fi_descs[desc_index].fi != name:
@@ -4311,8 +4313,10 @@ class UDFFileEntry:
         child = None
 
         for fi_desc in self.fi_descs:
-            if latin1_currpath and fi_desc.encoding == 'latin-1':
-                eq = fi_desc.fi == latin1_currpath
+            # The same bytes can spell one name in Latin-1 and a different
+            # one in UCS-2, so only compare like with like.
+            if fi_desc.encoding == 'latin-1':
+                eq = bool(latin1_currpath) and fi_desc.fi == latin1_currpath
             else:
                 eq = fi_desc.fi == ucs2_currpath
 
